@@ -243,7 +243,7 @@ func init() {
 		select {
 		case <-done:
 			emit("run returned frames=%d glfwTerminate=%d paClose=%d paTerminate=%d", glfw.SwapCalls-before, glfw.TerminateCalls, portaudio.CloseCalls, portaudio.TerminateCalls)
-		case <-time.After(60 * time.Second):
+		case <-time.After(12 * time.Second):
 			emit("run did not return")
 		}
 	})
@@ -324,7 +324,7 @@ func init() {
 			extra := glfw.SwapCalls - before
 			okExtra := extra <= 1
 			emit("run returned extra_le_1=%d glfwTerminate=%d paClose=%d paTerminate=%d", b2i(okExtra), glfw.TerminateCalls, portaudio.CloseCalls, portaudio.TerminateCalls)
-		case <-time.After(60 * time.Second):
+		case <-time.After(12 * time.Second):
 			emit("run did not return")
 		}
 	})
